@@ -129,7 +129,7 @@ pub fn run(e: &'static Engine) {
         }));
     }
     e.par(jobs);
-    super::common::standard_parts(e, 6400, 96000, |c, _fam, o| {
+    super::common::standard_parts(e, 32000, 256000, |c, _fam, o| {
         // the user-callback view on small symbols (an SVG of a large symbol costs milliseconds)
         let small = c.opts.version.map(|v| v <= 6).unwrap_or(c.input.len() <= 60);
         check(c, small, o)
